@@ -5,6 +5,7 @@ package main
 
 import (
 	"fmt"
+	"go/constant"
 	"go/token"
 	"go/types"
 	"strings"
@@ -174,4 +175,213 @@ func c17ReaderConsumers(c *Ctx, r *Report) {
 		}
 	}
 	r.Floor("R17.16", "consumers holding a reader's record and error channels", n, 1)
+}
+
+// c17ReadDataKept (R17.17): what a read returned is not thrown away.
+func c17ReadDataKept(c *Ctx, r *Report) {
+	r.Rule("R17.17", "what a read returned is not thrown away: for every call of bufio.Reader.ReadString / ReadBytes outside the sub-entry-points, on every path from the call to a return of the function or round to the same call again, the data result is used — returned, stored, concatenated, appended, passed on — or the path lies behind a test that the data is empty (len(data) == 0, data == \"\"). ReadString hands back the last line of a file without a terminator *together with* io.EOF; 'if err == io.EOF { break }' loses that line, and a loop that reads pieces and continues without adding the piece loses the piece")
+	n := 0
+	for _, fn := range c.ModuleFunctions() {
+		if fn.Blocks == nil {
+			continue
+		}
+		pk := ""
+		if fn.Pkg != nil {
+			pk = fn.Pkg.Pkg.Path()
+		}
+		if subEntrypointPkg(pk) {
+			continue
+		}
+		idx := 0
+		for _, b := range fn.Blocks {
+			for i, in := range b.Instrs {
+				call, ok := in.(*ssa.Call)
+				if !ok {
+					continue
+				}
+				cn := CalleeName(&call.Call)
+				if cn != "bufio.Reader.ReadString" && cn != "bufio.Reader.ReadBytes" {
+					continue
+				}
+				var data ssa.Value
+				for _, ref := range *call.Referrers() {
+					if ex, ok := ref.(*ssa.Extract); ok && ex.Index == 0 {
+						data = ex
+					}
+				}
+				idx++
+				n++
+				key := fmt.Sprintf("%s: %s #%d", flagClosureName(c, fn), cn, idx)
+				if data == nil {
+					r.Fail("R17.17", key, c.Rel(call.Pos()), "the data result of the read is never looked at")
+					continue
+				}
+				// instructions that use the data (not mere tests of its length / emptiness)
+				uses := map[ssa.Instruction]bool{}
+				emptyTests := map[ssa.Value]bool{} // conditions meaning: data is empty (when true) / polarity handled below
+				var collect func(v ssa.Value, depth int)
+				collect = func(v ssa.Value, depth int) {
+					if depth > 3 || v.Referrers() == nil {
+						return
+					}
+					for _, ref := range *v.Referrers() {
+						switch x := ref.(type) {
+						case *ssa.DebugRef:
+						case *ssa.Call:
+							if bi, ok := x.Call.Value.(*ssa.Builtin); ok && bi.Name() == "len" {
+								// len(data) compared with 0 is a test
+								for _, r2 := range *x.Referrers() {
+									if bo, ok := r2.(*ssa.BinOp); ok {
+										emptyTests[bo] = true
+									} else if _, isDbg := r2.(*ssa.DebugRef); !isDbg {
+										uses[r2] = true
+									}
+								}
+								continue
+							}
+							// looking at the data (a suffix or substring test) is not keeping it
+							if cn := CalleeName(&x.Call); strings.HasPrefix(cn, "strings.Has") || strings.HasPrefix(cn, "strings.Contains") || strings.HasPrefix(cn, "strings.Index") || strings.HasPrefix(cn, "bytes.Has") || strings.HasPrefix(cn, "bytes.Contains") || strings.HasPrefix(cn, "bytes.Index") {
+								continue
+							}
+							uses[x] = true
+						case *ssa.BinOp:
+							if x.Op == token.EQL || x.Op == token.NEQ {
+								emptyTests[x] = true
+								continue
+							}
+							uses[x] = true // concatenation
+						case *ssa.Phi:
+							uses[x] = true
+							collect(x, depth+1)
+						default:
+							uses[ref] = true
+						}
+					}
+				}
+				collect(data, 0)
+				// does the path stand behind "data is empty"?
+				knownEmpty := func(blk *ssa.BasicBlock) bool {
+					for _, g := range GuardsAt(blk) {
+						bo, ok := g.Cond.(*ssa.BinOp)
+						if !ok || !emptyTests[bo] {
+							continue
+						}
+						isZero := false
+						if k, ok := bo.Y.(*ssa.Const); ok && k.Value != nil {
+							if k.Value.Kind() == constant.String && constant.StringVal(k.Value) == "" {
+								isZero = true
+							}
+							if k.Value.Kind() == constant.Int {
+								if v, ok2 := constant.Int64Val(k.Value); ok2 && v == 0 {
+									isZero = true
+								}
+							}
+						}
+						if !isZero {
+							continue
+						}
+						if (bo.Op == token.EQL && g.Polarity) || (bo.Op == token.NEQ && !g.Polarity) || (bo.Op == token.GTR && !g.Polarity) || (bo.Op == token.LEQ && g.Polarity) {
+							return true
+						}
+					}
+					return false
+				}
+				// walk from the call: a path that reaches a return or the call again without a use
+				bad := ""
+				type st struct {
+					b    *ssa.BasicBlock
+					from int
+				}
+				seen := map[*ssa.BasicBlock]bool{}
+				var walk func(blk *ssa.BasicBlock, from int)
+				walk = func(blk *ssa.BasicBlock, from int) {
+					if bad != "" {
+						return
+					}
+					if from == 0 {
+						if seen[blk] {
+							return
+						}
+						seen[blk] = true
+						if knownEmpty(blk) {
+							return
+						}
+					}
+					for j := from; j < len(blk.Instrs); j++ {
+						x := blk.Instrs[j]
+						if uses[x] {
+							return
+						}
+						if x == ssa.Instruction(call) {
+							bad = "round to the same read at " + c.Rel(call.Pos())
+							return
+						}
+						if ret, ok := x.(*ssa.Return); ok {
+							// an error return that reports a real read error is not a loss of data
+							if nres := len(ret.Results); nres > 0 && isErrorType(ret.Results[nres-1].Type()) && !ReturnsNilError(ret) {
+								return
+							}
+							bad = "to the return at " + c.Rel(ret.Pos())
+							return
+						}
+						if _, ok := x.(*ssa.Panic); ok {
+							return
+						}
+					}
+					// the edge on which a test at the end of this block says the data is empty is not followed
+					skip := -1
+					if iff, ok := blk.Instrs[len(blk.Instrs)-1].(*ssa.If); ok {
+						cond, pol := stripNot(iff.Cond, true)
+						if bo, ok := cond.(*ssa.BinOp); ok && emptyTests[bo] {
+							isZero := false
+							if k, ok := bo.Y.(*ssa.Const); ok && k.Value != nil {
+								if k.Value.Kind() == constant.String && constant.StringVal(k.Value) == "" {
+									isZero = true
+								}
+								if k.Value.Kind() == constant.Int {
+									if v, ok2 := constant.Int64Val(k.Value); ok2 && v == 0 {
+										isZero = true
+									}
+								}
+							}
+							if isZero {
+								emptyWhenTrue := bo.Op == token.EQL || bo.Op == token.LEQ
+								emptyWhenFalse := bo.Op == token.NEQ || bo.Op == token.GTR
+								if emptyWhenTrue == pol && (emptyWhenTrue || emptyWhenFalse) {
+									skip = 0
+								} else if emptyWhenTrue || emptyWhenFalse {
+									skip = 1
+								}
+							}
+						}
+					}
+					for k, s := range blk.Succs {
+						if k == skip {
+							continue
+						}
+						walk(s, 0)
+					}
+				}
+				walk(b, i+1)
+				r.Check(bad == "", "R17.17", key, c.Rel(call.Pos()), "the data is used, or known to be empty, on every path",
+					fmt.Sprintf("%s: there is a path from the read %s on which the data it returned is neither used nor known to be empty: a last line without a terminator arrives together with io.EOF, and a piece read in a loop must be kept before reading the next", SSAName(fn), bad))
+			}
+		}
+	}
+	r.Floor("R17.17", "ReadString / ReadBytes calls", n, 4)
+}
+
+// flagClosureName: a parser closure of the flag table is named by its flag,
+// not by its position among the closures of the package initialiser.
+func flagClosureName(c *Ctx, fn *ssa.Function) string {
+	if fn.Parent() != nil {
+		if fis, msg := c.FlagTable(); msg == "" {
+			for _, fi := range fis {
+				if fi.Fn == fn {
+					return "flag parser of " + fi.Name
+				}
+			}
+		}
+	}
+	return SSAName(fn)
 }
